@@ -76,7 +76,7 @@ def grid(tier):
         for dt in dts:
             if D / dt > 40000:
                 continue
-            yield D, dt, lin if (D % 5 == 0) else thirds
+            yield D, dt, lin if (D % 5 == 0) else ([0.25, 0.5] if D % 7 == 3 else thirds)
 
 
 def clauses(tt, D, req):
